@@ -620,6 +620,7 @@ class GhostDT:
     def strftime(self, fmt):
         self.formats.append(fmt)
         r = self.v.str(self.label + '_rendered')
+        self.v.assume(Len(r) > 0)  # the formats used here contain literal text
         self.rendered.append(r)
         return r
 
@@ -1108,6 +1109,13 @@ def _cookie_setup(reg, ex):
     reg.inline.add(HELP + ':_is_ascii_encodable')
 
 
+def _legal_key_re():
+    """http.cookies._LegalChars: one or more of the ASCII letters, digits and !#$%&'*+-.^_`|~:"""
+    R = lambda a, b: z3.Range(z3.StringVal(a), z3.StringVal(b))  # noqa: E731
+    chars = [R('a', 'z'), R('A', 'Z'), R('0', '9')] + [z3.Re(z3.StringVal(c)) for c in "!#$%&'*+-.^_`|~:"]
+    return z3.Plus(z3.Union(*chars))
+
+
 def _new_jar(I):
     jar = Jar(I.ctx.ghost['v'])
     jar.reject_next_key = I.ctx.ghost.get('reject-key', False)
@@ -1212,14 +1220,26 @@ def cookie_inputs(v):
 
 
 def _set_cookie(v):
-    name, value = v.str('name'), v.str('value')
+    if v.hdef.opts.get('fixed_name'):
+        name, value = v.hdef.opts['fixed_name']
+    else:
+        name, value = v.str('name'), v.str('value')
     a = cookie_inputs(v)
     default_secure = bool(v.choose(2, 'secure_cookies_by_default')) if a['secure'] is None else True
     jk = pick(v, 'jar', 3)
     jar, before = prior_jar(v, jk, name)
-    reject = bool(jk == 0 and pick(v, 'jar-rejects-the-name', 2))
-    if reject and v.concrete:
-        name = 'bad name'  # http.cookies rejects keys with a space
+    # whether the jar accepts the name is decided by the stdlib's legal-key set (http.cookies._is_legal_key)
+    reject = bool(jk != 2 and pick(v, 'jar-rejects-the-name', 2))
+    if v.concrete:
+        from http.cookies import _is_legal_key
+
+        if name.isascii():
+            v.assume(reject == (not _is_legal_key(name)))
+    else:
+        if isinstance(name, SStr):
+            v.assume(Implies(in_range(name, 127), Iff(reject, Not(mk_bool(z3.InRe(name.t, _legal_key_re()))))))
+        if jar is not None:
+            jar.reject_next_key = reject
     other = v.str('other_key')
     hdrs, H = header_map(v, [other])
     X = extra_lines(v)
@@ -1309,8 +1329,8 @@ def _set_cookie(v):
         v.check('max-age-zero-is-written', 'max-age' in got and got['max-age'] == 0)
         got.pop('max-age', None)
     if jk == 2:
-        v.check('re-set-cookie-carries-exactly-the-requested-attributes', attrs_eq(got, want))
         v.cover('re-set')
+        v.check('re-set-cookie-carries-exactly-the-requested-attributes', attrs_eq(got, want))
     else:
         v.check('cookie-carries-exactly-the-requested-attributes', attrs_eq(got, want))
         v.cover('set')
@@ -1320,17 +1340,148 @@ _DEFAULTS = {'expires': [0], 'max_age': [0], 'domain?': [0], 'path?': [0], 'secu
              'jar': [0], 'jar-rejects-the-name': [0], 'X-shape': [0]}
 SC_TARGET = RESP + '.set_cookie'
 # every combination of the attribute arguments (samesite: absent / arbitrary string; max_age: absent / arbitrary int), split for parallel runs
-for _e in range(3):
-    for _s in range(3):
-        harness(PROP, SC_TARGET, name='set_cookie[expires=%d,secure=%d]' % (_e, _s), setup=_cookie_setup,
-                only=dict(_DEFAULTS, **{'expires': [_e], 'secure': [_s], 'max_age': [0, 1], 'domain?': [0, 1], 'path?': [0, 1], 'http_only': [0, 1],
+for _ex in range(3):
+    for _sec in range(3):
+        harness(PROP, SC_TARGET, name='set_cookie[expires=%d,secure=%d]' % (_ex, _sec), setup=_cookie_setup, fixed_name=('sid', 'abc123'),
+                only=dict(_DEFAULTS, **{'expires': [_ex], 'secure': [_sec], 'max_age': [0, 1], 'domain?': [0, 1], 'path?': [0, 1], 'http_only': [0, 1],
                                        'same_site': [0, 1], 'partitioned': [0, 1]}))(_set_cookie)
 # samesite in concrete spellings (replayable), max_age coercions (float, str, zero), jar states (other cookie / same name again / rejected name)
 harness(PROP, SC_TARGET, name='set_cookie[samesite-spellings]', setup=_cookie_setup, only=dict(_DEFAULTS, **{'same_site': [2, 3, 4, 5, 6], 'jar': [0, 1]}))(_set_cookie)
 harness(PROP, SC_TARGET, name='set_cookie[max-age-coercion]', setup=_cookie_setup, only=dict(_DEFAULTS, **{'max_age': [1, 2, 3, 4]}))(_set_cookie)
 harness(PROP, SC_TARGET, name='set_cookie[jar-states]', setup=_cookie_setup,
-        only=dict(_DEFAULTS, **{'jar': [0, 1, 2], 'jar-rejects-the-name': [0, 1], 'X-shape': [0, 1, 2], 'expires': [0, 1], 'max_age': [0, 1], 'domain?': [0, 1],
-                                'secure': [0, 2], 'same_site': [0, 2]}))(_set_cookie)
+        only=dict(_DEFAULTS, **{'jar': [0, 1, 2], 'jar-rejects-the-name': [0, 1], 'X-shape': [0, 2], 'max_age': [0, 1], 'domain?': [0, 1]}))(_set_cookie)
+
+
+@harness(PROP, RESP + '.unset_cookie', setup=_cookie_setup)
+def unset_cookie(v):
+    name = v.str('name')
+    jk = v.choose(3, 'jar')
+    jar, before = prior_jar(v, jk, name)
+    if v.concrete:
+        from http.cookies import _is_legal_key
+
+        v.assume(bool(_is_legal_key(name)))
+    else:
+        v.assume(mk_bool(z3.InRe(name.t, _legal_key_re())))  # a name the jar accepts (see ASSUMPTIONS)
+        v.ctx.ghost['v'] = v
+    kw = {}
+    sk = v.choose(2, 'samesite?')
+    if sk:
+        kw['samesite'] = v.str('samesite')
+    for k in ('domain', 'path'):
+        if v.choose(2, k + '?'):
+            kw[k] = v.str(k)
+    other = v.str('other_key')
+    hdrs, H = header_map(v, [other])
+    X = extra_lines(v)
+    X0 = None if X is None else list(X)
+    resp = mk_resp(v, hdrs, X, jar)
+    out = v.call(resp, name, **kw)
+    v.check('no-exception', out.exc is None)
+    v.check('plain-headers-and-raw-lines-untouched', And(map_of(v, resp).eq(H), v.get(resp, '_extra_headers') is X, True if X is None else pairs_eq(X, X0)))
+    if out.exc is not None:
+        return
+    after = morsels(v, v.get(resp, '_cookies'))
+    mine = find_cookie(v, after, name)
+    v.check('unset-cookie-is-in-the-jar-with-an-empty-value', mine is not None and And(mine[0] == name, mine[1] == ''))
+    if mine is None:
+        return
+    v.check('one-entry-per-cookie-name-others-untouched', And(len(after) == (len(before or []) + (0 if jk == 2 else 1)), others_untouched(v, before, after, name)))
+    want = {'expires': -1, 'samesite': kw.get('samesite', 'Lax')}
+    for k in ('domain', 'path'):
+        if k in kw and Len(kw[k]) > 0:
+            want[k] = kw[k]
+    got = mine[2]
+    # Max-Age takes precedence over Expires (RFC 6265, 5.3 step 3): an expired cookie has Expires in the past and no Max-Age
+    v.cover('unset-after-set' if jk == 2 else 'unset')
+    v.check('unset-cookie-is-expired', 'expires' in got and got['expires'] == -1 and 'max-age' not in got)
+    if jk == 2:
+        v.cover('unset-after-set')
+        v.check('unset-of-an-already-set-cookie-carries-exactly-expiry-samesite-domain-path', attrs_eq(got, want))
+    else:
+        v.check('unset-cookie-carries-exactly-expiry-samesite-domain-path', attrs_eq(got, want))
+        v.cover('unset')
+
+
+# ---------------------------------------------------------------------------
+# append_link: the URI-bearing parts go through the encoders on every path
+
+REL_CANARIES = ['http://example.com/ext-type', 'alternate http://example.com/ext-type']
+
+
+def _append_link(v):
+    target = v.str('target')
+    rk = pick(v, 'rel', 3)
+    if rk == 0:
+        rel = v.str('rel')
+        v.assume(Not(rel.contains('//')))  # a registered relation type; extension relation types (URIs) are the concrete variants
+        want_rel = rel
+    else:
+        rel = REL_CANARIES[rk - 1]
+        want_rel = '"' + ' '.join(enc(v, 'uri.encode_check_escaped', r) for r in rel.split()) + '"'
+    kw = {}
+    want = '<' + enc(v, 'uri.encode_check_escaped', target) + '>; rel=' + want_rel
+    if pick(v, 'title?', 2):
+        kw['title'] = v.str('title')
+        want = want + '; title="' + kw['title'] + '"'
+    if pick(v, 'title_star?', 2):
+        kw['title_star'] = (v.str('title_lang'), v.str('title_text'))
+        want = want + "; title*=UTF-8\'" + kw['title_star'][0] + "\'" + enc(v, 'uri.encode_value_check_escaped', kw['title_star'][1])
+    if pick(v, 'type_hint?', 2):
+        kw['type_hint'] = v.str('type_hint')
+        want = want + '; type="' + kw['type_hint'] + '"'
+    hk = pick(v, 'hreflang', 3)
+    if hk == 1:
+        kw['hreflang'] = v.str('hreflang')
+        want = want + '; hreflang=' + kw['hreflang']
+    elif hk == 2:
+        kw['hreflang'] = [v.str('hreflang0'), v.str('hreflang1')]
+        want = want + '; hreflang=' + kw['hreflang'][0] + '; hreflang=' + kw['hreflang'][1]
+    if pick(v, 'anchor?', 2):
+        kw['anchor'] = v.str('anchor')
+        want = want + '; anchor="' + enc(v, 'uri.encode_check_escaped', kw['anchor']) + '"'
+    ck = pick(v, 'crossorigin', 4)
+    if ck:
+        kw['crossorigin'] = [None, 'anonymous', 'Use-Credentials', 'bogus'][ck]
+        want = want + [None, '; crossorigin', '; crossorigin="use-credentials"', ''][ck]
+    xk = pick(v, 'link_extension', 3)
+    if xk:
+        kw['link_extension'] = [(v.str('ext_param%d' % i), v.str('ext_value%d' % i)) for i in range(xk)]
+        want = want + '; ' + kw['link_extension'][0][0] + '=' + kw['link_extension'][0][1]
+        if xk == 2:
+            want = want + '; ' + kw['link_extension'][1][0] + '=' + kw['link_extension'][1][1]
+    other = v.str('other_key')
+    hdrs, H = header_map(v, ['link', other])
+    X = extra_lines(v)
+    X0 = None if X is None else list(X)
+    resp = mk_resp(v, hdrs, X)
+    out = v.call(resp, target, rel, **kw)
+    H1 = map_of(v, resp)
+    v.check('extra-lines-and-cookies-untouched', untouched(v, resp, X, X0, None))
+    if ck == 3:
+        v.check('unknown-crossorigin-raises-valueerror', out.exc is not None and out.exc.isa(ValueError))
+        v.check('rejected-link-leaves-the-map-untouched', H1.eq(H))
+        v.cover('bad-crossorigin')
+        return
+    v.check('no-exception', out.exc is None)
+    if out.exc is not None:
+        return
+    if H.has('link'):
+        E = H.put('link', H.val('link') + ', ' + want)
+        v.cover('appended')
+    else:
+        E = H.put('link', want)
+        v.cover('first-link')
+    v.check('frame-at-any-other-key', H1.same_at(E, other))
+    v.check('link-value-has-the-uri-parts-encoded-and-is-appended-comma-separated', And(H1.has('link'), H1.val('link') == E.val('link')))
+    v.check('only-the-link-header-changes', H1.eq(E))
+
+
+_LINK_DEFAULTS = {'X-shape': [0]}
+for _rk in range(3):
+    for _ck in range(4):
+        harness(PROP, RESP + '.append_link', name='append_link[rel=%d,crossorigin=%d]' % (_rk, _ck), setup=_prop_setup,
+                only=dict(_LINK_DEFAULTS, rel=[_rk], crossorigin=[_ck]))(_append_link)
 
 
 KILLS = [
